@@ -2,7 +2,7 @@ from run import Job
 
 MANIFEST = dict(
     category="other",
-    text="Narrow claim: the matrix and vector-list (de)serialisers (the tensor pair is attempted in the thorough tier only: its instances exhaust the solver memory) of io.c are inverse on their real bodies for bounded concrete shapes "
+    text="Narrow claim: the matrix and vector-list (de)serialisers (for tensors the serialising half - length, layout, in-bounds writes for blocks of different shapes - is decided; the full tensor round trip is attempted in the thorough tier only because the deserialiser's loop bounds are symbolic for the solver) of io.c are inverse on their real bodies for bounded concrete shapes "
          "with symbolic contents (tensor blocks of different shapes, empty vectors), the serialised length formulas hold, every buffer access is "
          "in bounds, and serialising does not modify the in-memory object. This is the part of 'reads back equal' that lives in the library's own code.",
     note="Nothing is decided about write/read histories, table names, the %.18f text round trip or DropAllTables: they depend on SQLite (external), "
